@@ -24,30 +24,30 @@ def run(tier):
     hp = os.path.join(d, "headers.ndjson")
     _, err = vlib.run_harness(binary, ["sweep-headers", hp, "all" if tier == "thorough" else "quick"])
     tables = vlib.read_ndjson(hp)
-    _, res2, verdicts = vlib.tlc_chunked(PROP, "sweep_tlc", "Trace_C02", nchunks=12, env={"VERIF_IN": hp}, out_name="verdict", timeout=3000)
+    _, res2, verdicts = vlib.tlc_chunked(PROP, "sweep_tlc", "Trace_C02", nchunks=15, env={"VERIF_IN": hp}, out_name="verdict", timeout=3000)
     rep.add_tlc("Trace_C02", res2)
     if len(verdicts) != len(tables):
         raise vlib.ToolError("header sweep: %d verdicts for %d tables" % (len(verdicts), len(tables)))
     rep.count(65536 * len(tables))
     for t in tables:
         for r in t["rle"]:
-            rep.nontrivial((t["fn"], t["ct"], t["extra"], r[0]))
+            rep.nontrivial((t["fn"], t["ct"], t["ver"], t["extra"], r[0]))
     for v in verdicts:
         if v["agree"]:
             rep.cov["traces_validated_against_impl"] += 1
         else:
             f = v["first"]
             ln = f[1] if len(f) == 4 else -1
-            rep.violation("%s:ct=%s:len=%s:cut=%s" % (v["fn"], v["ct"], ln, 5 + v["extra"]), {"fn": v["fn"], "ct": v["ct"], "declared_len": ln, "bytes_after_header": v["extra"]},
+            rep.violation("%s:ct=%s:ver=%s:len=%s:cut=%s" % (v["fn"], v["ct"], v["ver"], ln, 5 + v["extra"]), {"fn": v["fn"], "ct": v["ct"], "ver": v["ver"], "declared_len": ln, "bytes_after_header": v["extra"]},
                           f[3] if len(f) == 4 else None, f[2] if len(f) == 4 else None,
-                          "header sweep %s ct=%s (+%s bytes): from declared length %s the crate answers %s, the specification says %s" % (
-                              v["fn"], v["ct"], v["extra"], ln, f[2] if len(f) == 4 else "?", f[3] if len(f) == 4 else "?"), "sweep")
+                          "header sweep %s ct=%s ver=%#06x (+%s bytes): from declared length %s the crate answers %s, the specification says %s" % (
+                              v["fn"], v["ct"], v["ver"], v["extra"], ln, f[2] if len(f) == 4 else "?", f[3] if len(f) == 4 else "?"), "sweep")
     for c in cases[:2] + cases[len(cases) // 2:len(cases) // 2 + 1]:
         rep.sample({"fn": c["fn"], "input": c["input"], "expect": c["expect"], "pin": c["pin"]})
     return rep.finish("model_checking",
                       "cases = model records (7 content types x payload pool x trailing bytes x every prefix cut, lying "
-                      "lengths, cap boundary 16639/16640/16641/65535) x 3 parsers; sweep = 8 (quick) / 256 (thorough) content types x all 65536 declared "
-                      "lengths x {header only, +3 bytes} x 3 parsers judged by TLC; distinct = (function, pin, outcome, value size)")
+                      "lengths, cap boundary 16639/16640/16641/65535) x 3 parsers; sweep = 8 (quick) / 256 (thorough) content types x {header only, +3 bytes} under TLS 1.2 plus 2x7 (quick) / 16x16 (thorough) "
+                      "(content type, version) pairs, each x all 65536 declared lengths x 3 parsers, judged by TLC; distinct = (function, pin, outcome, value size)")
 
 
 def replay(path):
